@@ -22,6 +22,7 @@ import PsutilModel.Proofs.C15R2
 import PsutilModel.Proofs.C15Cost
 import PsutilModel.Proofs.C15R3
 import PsutilModel.Proofs.C15Probe
+import PsutilModel.Proofs.C15Clock
 import PsutilModel.Model.C15Gen
 namespace Psutil.C15
 open Spec
@@ -1330,5 +1331,153 @@ example : hiddenAlive hiddenEnv hiddenView 0 := by
 example : View.window 1 (some 2) (1 / 2) = true ∧ View.window 1 (some 2) 1 = false ∧
     View.window 1 (some 2) 2 = true ∧ View.window 1 none 5 = false := by
   norm_num [View.window]
+
+/-! ## seeded round 5 (C15-8): WHICH clock each deadline computation reads, for every wall clock -/
+
+/-- proof obligation on four translator facts: the clock read in `stop_at = <clock>() + timeout` and in the
+    deadline check of `wait_pid`'s `sleep()` (as `Process.wait` reaches them: through the default of the
+    `_timer` parameter), and the clock read in `deadline = <clock>() + timeout` and in
+    `min(deadline - <clock>(), max_timeout)` of `wait_procs` (through `psutil._timer`), is the STEADY clock
+    (`time.monotonic`). Binding any of them to `time.time` (seeded C15-8: the default of `_timer`), to something
+    the translator cannot resolve, or reading `time.time()` in place stops this building. -/
+theorem cfg_steady_clock :
+    cfg.stopClock = .steady ∧ cfg.checkClock = .steady ∧ cfg.procsDeadlineClock = .steady ∧
+    cfg.procsSliceClock = .steady := by decide
+
+/-- what a caller (holding the steady clock) observes of `wait_pid(pid, timeout)` when `stop_at` is computed
+    from clock `cs`, the deadline check reads clock `cc`, and the wall clock reads `wall` -/
+def obsWaitK (probe : Probe) (env : Env) (view : View) (cs cc : Clock) (wall : Wall) (pid : Int)
+    (timeout : Option Rat) (fuel : Nat) (now : Rat) (nWait : Nat) : Obs :=
+  ⟨(waitPidK cfg probe env view cs cc wall pid timeout fuel now nWait).1,
+   (waitPidK cfg probe env view cs cc wall pid timeout fuel now nWait).2.now,
+   (waitPidK cfg probe env view cs cc wall pid timeout fuel now nWait).2.sleeps⟩
+
+/-- the wait the code makes (clocks and probe = the ones the translator found) observes the same for EVERY
+    wall clock and every procfs view — result, return instant, every sleep — namely what the one-clock model
+    of all theorems above observes: each of them holds in every world in which the wall clock is stepped
+    forwards or backwards, by any amount, at any moment -/
+theorem C15_wait_any_wall_clock (wall : Wall) (env : Env) (view : View) (n : Nat) (timeout : Option Rat)
+    (fuel : Nat) (now : Rat) (nWait : Nat) :
+    obsWaitK cfg.probe env view cfg.stopClock cfg.checkClock wall (n : Int) timeout fuel now nWait =
+      obsWait env n timeout fuel now nWait ∧
+    obsWaitK cfg.probeDirect env view cfg.stopClock cfg.checkClock wall (n : Int) timeout fuel now nWait =
+      obsWait env n timeout fuel now nWait := by
+  have h := C15_wait_any_view env view n timeout fuel now nWait
+  rw [cfg_steady_clock.1, cfg_steady_clock.2.1]
+  unfold obsWaitK
+  simp only [waitPidK_steady]
+  exact h
+
+/-- timeouts honoured, for every wall clock: TimeoutExpired carries (timeout, pid) and is raised at or after
+    the deadline and less than one 40 ms poll after it — of STEADY time; whatever way the call ends, it has
+    ended before start + timeout + 40 ms; and (last waitpid call not interrupted) the process was still
+    alive at the raise instant -/
+theorem C15_timeout_honoured_any_wall_clock (wall : Wall) (env : Env) (view : View) (n : Nat)
+    (timeout : Option Rat) (fuel : Nat) (now : Rat) (nWait : Nat) :
+    onePollLate ⟨env, n, timeout, now⟩
+      (obsWaitK cfg.probe env view cfg.stopClock cfg.checkClock wall (n : Int) timeout fuel now nWait) ∧
+    timeoutHonoured ⟨env, n, timeout, now⟩
+      (obsWaitK cfg.probe env view cfg.stopClock cfg.checkClock wall (n : Int) timeout fuel now nWait) ∧
+    (∀ sec p, (obsWaitK cfg.probe env view cfg.stopClock cfg.checkClock wall (n : Int) timeout fuel now nWait).out
+        = .timeout sec p →
+      timeout = some sec ∧ p = n ∧
+      now + sec ≤ (obsWaitK cfg.probe env view cfg.stopClock cfg.checkClock wall (n : Int) timeout fuel now nWait).ret) ∧
+    (env.eintr (lastCall env n timeout fuel now nWait) = false →
+      timeoutSound ⟨env, n, timeout, now⟩
+        (obsWaitK cfg.probe env view cfg.stopClock cfg.checkClock wall (n : Int) timeout fuel now nWait)) := by
+  rw [(C15_wait_any_wall_clock wall env view n timeout fuel now nWait).1]
+  refine ⟨C15_at_most_one_poll_late env n timeout fuel now nWait, ?_,
+    fun sec p h => C15_timeout_fields env n timeout fuel now nWait sec p h,
+    fun hne => C15_timeout_sound_partial env n timeout fuel now nWait hne⟩
+  unfold timeoutHonoured
+  cases timeout with
+  | none => trivial
+  | some τ =>
+    simp only
+    intro h0 _ _
+    exact C15_returns_before_deadline_plus_poll env n τ fuel now nWait h0
+
+/-- `Process.wait` and `Popen.wait`, for every wall clock and every view: the calls of the one-clock model
+    (validation, `_exitcode` cache, Popen layer included) -/
+theorem C15_process_wait_any_wall_clock (wall : Wall) (env : Env) (view : View) (timeout : Option Rat)
+    (fuel : Nat) (now : Rat) (p : PObj) (q : PopenObj) :
+    procWaitK cfg cfg.probe env view cfg.stopClock cfg.checkClock wall timeout fuel now p =
+      procWait cfg env timeout fuel now p ∧
+    popenWaitK cfg cfg.probe env view cfg.stopClock cfg.checkClock wall timeout fuel now q =
+      popenWait cfg env timeout fuel now q := by
+  rw [cfg_steady_clock.1, cfg_steady_clock.2.1, procWaitK_steady, popenWaitK_steady]
+  exact C15_process_wait_any_view env view timeout fuel now p q
+
+/-- the whole `wait_procs` (Process and Popen objects, argument checks included), for every wall clock: the
+    run — both lists, every returncode, callback log, return instant, every sleep — IS the run of the
+    one-clock model `waitProcsFrontM`, so every `C15_wait_procs_*` theorem holds whatever the wall clock does -/
+theorem C15_wait_procs_any_wall_clock (wall : Wall) (envOf : Nat → Env) (procs : List Nat) (hashable : Bool)
+    (timeout : Option Rat) (cb : Cb) (order : Nat → List Nat → List Nat) (fuel : Nat) (m : WPM) :
+    waitProcsFrontK cfg envOf wall procs hashable timeout cb order fuel m =
+      waitProcsFrontM cfg envOf procs hashable timeout cb order fuel m :=
+  waitProcsFrontK_steady cfg_pid_test.1 cfg_pid_test.2.2 cfg_steady_clock.1 cfg_steady_clock.2.1
+    cfg_steady_clock.2.2.1 cfg_steady_clock.2.2.2 envOf wall procs hashable timeout cb order fuel m
+
+/-- … in particular `wait_procs` returns before start + timeout + one 40 ms poll of steady time, and never
+    reports a process gone that has not ended, for every wall clock -/
+theorem C15_wait_procs_deadline_any_wall_clock (wall : Wall) (envOf : Nat → Env) (procs : List Nat)
+    (timeout : Option Rat) (cb : Cb) (order : Nat → List Nat → List Nat) (fuel : Nat) (m m' : WPM)
+    (alive' : List Nat) (hperm : ∀ k l, (order k l).Perm l) (hf : Fresh envOf m.embed)
+    (h : waitProcsFrontK cfg envOf wall procs true timeout cb order fuel m = .ok (m', alive')) :
+    deadlineOk ⟨envOf, procs, timeout, m.w.now, cb != .absent⟩ (obsProcs m'.w alive') ∧
+    goneEnded ⟨envOf, procs, timeout, m.w.now, cb != .absent⟩ (obsProcs m'.w alive') := by
+  rw [C15_wait_procs_any_wall_clock] at h
+  have hM : waitProcsM cfg envOf procs timeout (cb != .absent) order fuel m = .ok (m', alive') := by
+    unfold waitProcsFrontM at h
+    split at h
+    · cases h
+    · split at h
+      · cases h
+      · split at h
+        · cases h
+        · split at h
+          · cases h
+          · rename_i r hr; cases h; exact hr
+  obtain ⟨_, _, _, h4, h5, _, _⟩ :=
+    C15_wait_procs_mixed envOf (cb != .absent) order fuel hperm procs timeout m m' alive' hf hM
+  exact ⟨h5, h4⟩
+
+/-- the full statement over the clocks as well: whichever clock the two deadline computations of `wait_pid`
+    read, TimeoutExpired is raised only at/after the deadline and the call is over one poll after it -/
+def C15_timeout_honoured_any_clock_Full : Prop :=
+  ∀ (cs cc : Clock) (wall : Wall) (env : Env) (view : View) (n : Nat) (timeout : Option Rat) (fuel : Nat)
+    (now : Rat) (nWait : Nat),
+    (∀ sec p, (obsWaitK .kill env view cs cc wall (n : Int) timeout fuel now nWait).out = .timeout sec p →
+      now + sec ≤ (obsWaitK .kill env view cs cc wall (n : Int) timeout fuel now nWait).ret) ∧
+    timeoutHonoured ⟨env, n, timeout, now⟩ (obsWaitK .kill env view cs cc wall (n : Int) timeout fuel now nWait)
+
+/-- … is FALSE: a wait that measures its deadline on the wall clock (what seeded C15-8 makes every
+    `Process.wait(timeout)` do) raises TimeoutExpired 0.1 ms into a 1 s timeout, the process alive, when the wall
+    clock is stepped forward by an hour right after the call started. This is why `cfg_steady_clock` is an
+    obligation. -/
+theorem C15_wall_clock_forward_step_counterexample : ¬ C15_timeout_honoured_any_clock_Full := by
+  intro h
+  have h1 := (h .wall .wall fwdWall exOther View.full 8 (some 1) 5 0 0).1 1 8
+  have h2 := fwd_run cfg_good cfg_pid_test.2.2
+  unfold obsWaitK at h1
+  simp only [Nat.cast_ofNat] at h1
+  rw [h2] at h1
+  norm_num at h1
+
+/-- … and, the wall clock stepped BACKWARD instead: `wait(timeout=1 ms)` on a child that ends after 50 ms
+    raises nothing at 1 ms, polls on and hands back the exit code at 51.1 ms — 10 ms beyond deadline + one poll -/
+theorem C15_wall_clock_backward_step_counterexample :
+    ¬ timeoutHonoured ⟨exSlow, 7, some (1 / 1000), 0⟩
+        (obsWaitK .kill exSlow View.full .wall .wall backWall 7 (some (1 / 1000)) 20 0 0) := by
+  obtain ⟨h1, h2⟩ := back_run cfg_good cfg_pid_test.2.2
+  unfold timeoutHonoured obsWaitK
+  simp only [h1, h2]
+  norm_num [Spec.cap]
+  constructor <;> (intro h; cases h)
+
+/-- non-vacuity: the two witnesses are stepping wall clocks — steady before the step, an hour off after it -/
+example : fwdWall 0 = 0 ∧ fwdWall (1 / 10000) = 3600 + 1 / 10000 ∧ backWall (1 / 10000) = -3600 + 1 / 10000 ∧
+    Wall.stepped 5 [(1, 2), (3, -4)] 2 = 9 ∧ Wall.stepped 5 [(1, 2), (3, -4)] 3 = 6 := by
+  norm_num [fwdWall, backWall, Wall.stepped]
 
 end Psutil.C15
